@@ -16,6 +16,12 @@ def run_property(ctx, level, explanation, p_parts=(), b_modules=(), assumptions=
             # a function the engine cannot lower is out of reach for this run: undecided, never a violation
             ctx.obligation(getattr(part, "__name__", "p_part") + ".out_of_reach", "?", "unknown", "engine", 0.0,
                            detail=str(ex), sample=True)
+        except Exception as ex:
+            # the proof script itself failed on this source (e.g. a shape it does not model): also undecided - the bounded
+            # stand-in decides the run; on the unchanged tree this shows up as discharged < obligations
+            import traceback
+            ctx.obligation(getattr(part, "__name__", "p_part") + ".out_of_reach", "?", "unknown", "engine", 0.0,
+                           detail=f"{type(ex).__name__}: {ex} | " + traceback.format_exc().splitlines()[-3].strip(), sample=True)
     if not os.environ.get("VERIF_SKIP_BOUNDED"):
         for m in b_modules:
             mod = importlib.import_module("runtime." + m)
